@@ -291,3 +291,70 @@ def keyed_cache_rule(repo: Repo, prop: str, rule_id: str, module_prefixes: Tuple
             seen_msgs.add(msg)
             r.bad(fn, f"{fn.qualname} {msg}", node, key=f"cache#{len(seen_msgs) - 1}")
     return r
+
+
+# ---------------------------------------------------------------------------------------------------------------------
+def alias_snapshot_rule(repo, prop: str, rule_id: str, module_prefixes=("optimize.",)):
+    """Change detection needs a COPY of the old value: ``self._seen = self.leader`` followed by ``if array_equal(self.leader,
+    self._seen): return`` compares an array with itself whenever the value is changed in place (``link.leader += d``,
+    ``leader[:] = p``), so the update is skipped although the value moved. For every class: an attribute that is assigned another
+    attribute of the same object without a copying call, and a comparison of the two anywhere in the class. Expected count zero;
+    the matcher is exercised on an embedded example on every run."""
+    import ast as _ast
+
+    from .model import AnalysisError, attr_chain
+    from .report import RuleRun
+
+    r = RuleRun(prop, rule_id, floor=1, what="no 'snapshot' attribute that is merely another name for the attribute it is compared with (change detection by comparing an array with its own alias)")
+    COPIES = ("array", "copy", "deepcopy", "list", "tuple")
+
+    def scan(cls_node: _ast.ClassDef):
+        pairs = {}
+        for fn in [n for n in cls_node.body if isinstance(n, _ast.FunctionDef)]:
+            if not fn.args.args:
+                continue
+            me = fn.args.args[0].arg
+            for n in _ast.walk(fn):
+                if isinstance(n, _ast.Assign) and len(n.targets) == 1 and isinstance(n.targets[0], _ast.Attribute) and attr_chain(n.targets[0].value) == me:
+                    v = n.value
+                    if isinstance(v, _ast.Attribute) and attr_chain(v.value) == me and v.attr != n.targets[0].attr:
+                        pairs[(n.targets[0].attr, v.attr)] = n
+        out = []
+        for fn in [n for n in cls_node.body if isinstance(n, _ast.FunctionDef)]:
+            if not fn.args.args:
+                continue
+            me = fn.args.args[0].arg
+            for n in _ast.walk(fn):
+                operands = []
+                if isinstance(n, _ast.Call) and (attr_chain(n.func) or "").split(".")[-1] in ("array_equal", "array_equiv", "allclose", "isclose") and len(n.args) >= 2:
+                    operands = n.args[:2]
+                elif isinstance(n, _ast.Compare) and len(n.ops) == 1 and isinstance(n.ops[0], (_ast.Eq, _ast.NotEq, _ast.Is, _ast.IsNot)):
+                    operands = [n.left, n.comparators[0]]
+                names = [o.attr for o in operands if isinstance(o, _ast.Attribute) and attr_chain(o.value) == me]
+                if len(names) == 2:
+                    for (snap, src), where in pairs.items():
+                        if set(names) == {snap, src}:
+                            out.append((snap, src, where, n, fn.name))
+        return out
+
+    probe = _ast.parse("class L:\n    def update(self):\n        if self._seen is not None and np.array_equal(self.leader, self._seen):\n            return\n        self._seen = self.leader\n        self.follower = self.transform()\nclass M:\n    def update(self):\n        if np.array_equal(self.leader, self._seen):\n            return\n        self._seen = np.copy(self.leader)")
+    found = [scan(c) for c in probe.body]
+    if not (len(found[0]) == 1 and len(found[1]) == 0):
+        raise AnalysisError(f"{rule_id}: the matcher no longer separates its embedded positive and negative example")
+    n = 0
+    for cls in sorted(repo.classes.values(), key=lambda c: c.qualname):
+        short = cls.module.name.split("classy_blocks.")[-1]
+        if not any(short.startswith(p) for p in module_prefixes):
+            continue
+        n += 1
+        for snap, src, where, cmp_, meth in scan(cls.node):
+            fn = cls.methods.get(meth)
+            r.bad(
+                fn if fn is not None else cls,
+                f"{cls.qualname}.{meth}: '{_ast.unparse(cmp_)[:70]}' compares self.{src} with self.{snap}, which '{_ast.unparse(where)[:50]}' made another name for the same object: after an in-place "
+                f"change of {src} (+=, [:] =) the two are still equal and the update is skipped - the follower / dependent value stays where it was although the leader moved",
+                cmp_,
+                key=f"alias:{snap}",
+            )
+    r.ok(None, f"{n} classes scanned; matcher verified on its embedded examples", key="scan")
+    return r
